@@ -659,6 +659,25 @@ def ref_dist(name, params):
     return getattr(L["tfd"], r["cls"])(**kw)
 
 
+def _ref_arrays(params):
+    jnp = _lib()["jnp"]
+    return {k: jnp.asarray(np.asarray(v, dtype=np.float32)) for k, v in params.items()}
+
+
+_REF_FNS = {}
+
+
+def ref_logprob(name):
+    """jitted (parameter arrays, value) -> tfd.<documented class>(**parameters).log_prob(value)"""
+    if name not in _REF_FNS:
+        L = _lib()
+        r = ROWS[name]
+        extra = {k: ({"bool": L["jnp"].bool_}[v] if k == "dtype" else v) for k, v in r["extra"].items()}
+        cls = getattr(L["tfd"], r["cls"])
+        _REF_FNS[name] = L["jax"].jit(lambda A, v: cls(**A, **extra).log_prob(v))
+    return _REF_FNS[name]
+
+
 def _P64(params):
     """parameters as the float64 image of the float32 numbers the library receives"""
     return {k: np.asarray(np.asarray(v, dtype=np.float32), dtype=np.float64) for k, v in params.items()}
@@ -842,8 +861,12 @@ def check_case(case, ctx=None):
     nterms = int(np.prod(ss + batch)) if (ss + batch) else 1
     npdt = {"float32": np.float32, "int32": np.int32, "bool": np.bool_}[r["dtype"]]
 
+    refA = {id(ref0): _ref_arrays(case["params"]), id(ref1): _ref_arrays(case["params1"])}
+
     def L_ref(ref, v):
-        lp = _np(ref.log_prob(v)).astype(np.float64)
+        # the reference log_prob is evaluated through a jitted function of (parameters, value): an eager
+        # TFP log_prob containing a while-loop (Bessel / hypergeometric series) would compile on every call
+        lp = _np(ref_logprob(name)(refA[id(ref)], jnp.asarray(v))).astype(np.float64)
         return float(lp.sum()), float(np.max(np.abs(lp))) if np.all(np.isfinite(lp)) else 1.0
 
     def tol(m):
@@ -1017,9 +1040,12 @@ def check_case(case, ctx=None):
     def cval(x):
         return float(x) if pyval else x
 
+    # wrappers whose eager log_prob compiles a loop on every call get the reduced eager battery
+    lean = name in VERY_HEAVY
+
     # ---- float64 scipy / closed-form cross-check --------------------------------------------
     if r["scipy"] is not None:
-        for P, x, M, gg, aa, pp in ((P0, x0, Mx0, g, args, case["params"]), (P1, x1, Mx1, *target(gf, pos1, kw1), case["params1"])):
+        for P, x, M, gg, aa, pp in ((P0, x0, Mx0, g, args, case["params"]), (P1, x1, Mx1, *target(gf, pos1, kw1), case["params1"]))[: 1 if lean else 2]:
             x64 = _np(x).astype(np.float64)
             with np.errstate(all="ignore"):
                 lp = np.asarray(r["scipy"](P, x64), dtype=np.float64)
@@ -1031,7 +1057,7 @@ def check_case(case, ctx=None):
             ctx.count("scipy-checked")
 
     # ---- assess ---------------------------------------------------------------------------
-    for label, val, cv, want, M in (("sampled", v, v, Lv0, Mv0), ("drawn", x0, cval(x0), Lx0, Mx0)):
+    for label, val, cv, want, M in (("sampled", v, v, Lv0, Mv0), ("drawn", x0, cval(x0), Lx0, Mx0))[1 if lean else 0 :]:
         sc, rv = g.assess(C.v(cv), args)
         if not tol(M).close(sc, want):
             bad("assess-vs-tfp", f"assess({label} value {_np(val).tolist()}) = {float(sc)!r} != sum log_prob = {want!r}")
@@ -1066,13 +1092,14 @@ def check_case(case, ctx=None):
             check_update(label, (res[0], res[1], res[3]), v, Lv0, Mv0, new_val, want_score, M, want_args, bwd_old, check_dtype=not pyval)
 
         upd("update(C.v(x))", tr.update(keys[2], C.v(cx0)), x0, Lx0, Mx0, a0, True)
-        upd("update(C.v(x), no_change(args))", tr.update(keys[2], C.v(cx0), Diff.no_change(a0)), x0, Lx0, Mx0, a0, True)
         upd("update(C.v(x), unknown_change(args'))", tr.update(keys[2], C.v(cx1), changed), x1, Lx1, Mx1, a1, True)
         upd("update(empty, unknown_change(args'))", tr.update(keys[2], C.n(), changed), v, Lv1, Mv1, a1, False)
-        upd("update(empty)", tr.update(keys[2], C.n()), v, Lv0, Mv0, a0, False)
-        res = tr.edit(keys[2], L["genjax"].Update(C.v(cx1)), changed)
-        upd("trace.edit(Update(C.v(x)), unknown_change(args'))", (res[0], res[1], res[2], res[3].constraint), x1, Lx1, Mx1, a1, True)
-        if m["kind"] == "py" or m["op"] == "update":
+        if not lean:
+            upd("update(C.v(x), no_change(args))", tr.update(keys[2], C.v(cx0), Diff.no_change(a0)), x0, Lx0, Mx0, a0, True)
+            upd("update(empty)", tr.update(keys[2], C.n()), v, Lv0, Mv0, a0, False)
+            res = tr.edit(keys[2], L["genjax"].Update(C.v(cx1)), changed)
+            upd("trace.edit(Update(C.v(x)), unknown_change(args'))", (res[0], res[1], res[2], res[3].constraint), x1, Lx1, Mx1, a1, True)
+        if (m["kind"] == "py" or m["op"] == "update") and not (lean and m["kind"] == "py" and not m["flag"]):
             _EAGER_COND[0] += m["kind"] == "arr"
             xa, La, Ma, aa, ad = (x1, Lx1, Mx1, a1, changed) if m["chg"] else (x0, Lx0, Mx0, a0, None)
             Lva, Mva = (Lv1, Mv1) if m["chg"] else (Lv0, Mv0)
@@ -1088,6 +1115,7 @@ def check_case(case, ctx=None):
     if _EAGER_COND[0] >= 60:
         _EAGER_COND[0] = 0
         _PROGS.clear()
+        _REF_FNS.clear()
         jax.clear_caches()
 
 
@@ -1150,10 +1178,24 @@ def _selftest():
         raise RuntimeError(f"C24 table does not cover exported wrappers {missing}")
 
 
+def _weight(n):
+    if n == "beta_quotient":
+        return 12
+    if n in VERY_HEAVY:
+        return 6
+    return 3 if n in HEAVY else 1
+
+
 def shard_names(shard, nshards):
-    """heavy (rejection-sampler) wrappers first, then the others, dealt round-robin: balanced shards"""
-    order = sorted(n for n in NAMES if n in HEAVY) + sorted(n for n in NAMES if n not in HEAVY)
-    return [n for i, n in enumerate(order) if i % nshards == shard]
+    """deterministic longest-processing-time assignment by a rough cost weight: balanced shards"""
+    loads = [0] * nshards
+    mine = []
+    for n in sorted(NAMES, key=lambda n: (-_weight(n), n)):
+        k = min(range(nshards), key=lambda i: (loads[i], i))
+        loads[k] += _weight(n)
+        if k == shard:
+            mine.append(n)
+    return mine
 
 
 def run(ctx):
